@@ -21,8 +21,11 @@ def build(edges):
   """edges: list of {s, t, st}.  -> (init, graph) with graph[s] = [[step, target, covered]]."""
   graph = {}
   targets = set()
+  ids = {}
   for e in edges:
     s, t = core.canon(e["s"]), core.canon(e["t"])
+    s = ids.setdefault(s, s)          # one string object per state
+    t = ids.setdefault(t, t)
     graph.setdefault(s, []).append([e["st"], t, False])
     graph.setdefault(t, [])
     if s != t:
